@@ -42,18 +42,36 @@ theorem C14_binop_actions_integer :
 
 /-- `/` denotes the integer quotient for non-negative operands and a non-zero divisor -/
 theorem C14_div_is_integer_quotient (a b : Nat) (hb : 0 < b) :
-    binop .div (a : Int) (b : Int) = .ok (((a / b : Nat) : Int)) := by
-  unfold binop
+    rawBinop .div (a : Int) (b : Int) = .ok (((a / b : Nat) : Int)) := by
+  unfold rawBinop
   have h0 : ¬ ((b : Int) = 0) := by omega
   simp only [h0, if_false]
   congr 1
   exact Int.fdiv_eq_ediv_of_nonneg _ (by omega)
 
 /-- `<<` multiplies by a power of two, for every left operand (also negative) -/
-theorem C14_shl_is_mul (a : Int) (k : Nat) : binop .shl a (k : Int) = .ok (a * (2 ^ k : Nat)) := by
-  unfold binop
+theorem C14_shl_is_mul (a : Int) (k : Nat) : rawBinop .shl a (k : Int) = .ok (a * (2 ^ k : Nat)) := by
+  unfold rawBinop
   have : ¬ ((k : Int) < 0) := by omega
   simp [this]
+
+/-- the evaluators return the plain integer result whenever it fits (-2^64, 2^64) and shift counts
+    are at most 64; otherwise they report it - never a wrapped or approximate value -/
+theorem C14_binop_exact_or_reported (op : BinOp) (a b v : Int) (h : binop op a b = .ok v) :
+    rawBinop op a b = .ok v ∧ inRange64 v = true := by
+  unfold binop at h
+  split at h
+  · cases h
+  · cases hr : rawBinop op a b with
+    | error e => simp [hr] at h
+    | ok w =>
+      simp only [hr] at h
+      split at h
+      · rename_i hin
+        injection h with h
+        subst h
+        exact ⟨rfl, hin⟩
+      · cases h
 
 /-- the value of an expression does not depend on how it was parenthesised or spaced:
     it is a function of the tree (trivial by construction, stated for the record) and the
